@@ -53,7 +53,8 @@ pub enum Expr {
     // print(arg); `text` is what it writes (render(value of arg) + "\n")
     Print { node: NodeId, arg: Box<Expr>, text: String },
     Call { node: NodeId, callee: Callee, args: Vec<(Expr, bool)> },
-    Bin(&'static str, Box<Expr>, Box<Expr>),
+    // `node` is an operator node (site "operator:<kind>"): its position is the operator token
+    Bin(NodeId, &'static str, Box<Expr>, Box<Expr>),
     List(Vec<(Expr, bool)>),
     Obj(Vec<ObjItem>),
     Index(Box<Expr>, Box<Expr>),
